@@ -51,6 +51,10 @@ InDomain ==
     [] OTHER -> TRUE
 
 TWrite == /\ E.k \in WriteKinds /\ InDomain /\ Post /\ Write(WriteBitsOf, Ok)
+\* Append: the recorded state but for the capacity, which the action says
+TAppend == /\ E.k = "Append" /\ Ok
+           /\ s' = (IF Has("bin") THEN StrToBits(E.bin) ELSE s) /\ r' = Len(s') - E.avail /\ nrefs' = E.refs /\ rr' = E.refs - E.ravail
+           /\ AppendGrow(StrToBits(E.bits))
 
 \* width and advance of a read event
 ReadW == CASE E.k \in {"ReadBit"} -> 1
@@ -106,7 +110,7 @@ TReset == /\ E.k = "Reset" /\ l = seg /\ New(E.cap)
 
 TraceNext == /\ l <= N
              /\ (l # seg => Trace[l].k # "Reset")      \* a segment ends at the next Reset
-             /\ (TReset \/ TWrite \/ TRead \/ TReadUnary \/ TResetCounter \/ TAddRef \/ TNextRef \/ TFift \/ TSetBit \/ TAlias \/ TCopyRem \/ TTopUp)
+             /\ (TReset \/ TWrite \/ TAppend \/ TRead \/ TReadUnary \/ TResetCounter \/ TAddRef \/ TNextRef \/ TFift \/ TSetBit \/ TAlias \/ TCopyRem \/ TTopUp)
              /\ Consume
 TraceSpec == TraceInit /\ [][TraceNext]_tvars
 
